@@ -1802,26 +1802,28 @@ impl ArchiveBuilder {
             "Creating HET table from hash_table: {file_count} files, {hash_table_entries} hash entries"
         );
 
+        // File indices are stored in a bit-packed array with one entry per hash entry
+        let index_size = Self::calculate_bits_needed(file_count as u64);
+        let file_indices_size = (hash_table_entries as usize * index_size as usize).div_ceil(8);
+
         // Create header
         let header = HetHeader {
             table_size: 0, // Will be calculated later
             max_file_count: file_count,
             hash_table_size: hash_table_entries, // Number of hash entries (in bytes)
             hash_entry_size: Self::HET_NAME_HASH_BITS,
-            total_index_size: hash_table_entries * Self::calculate_bits_needed(file_count as u64),
+            // Each entry of the file index array takes the total size, of which the
+            // effective size is the index
+            total_index_size: index_size,
             index_size_extra: 0,
-            index_size: Self::calculate_bits_needed(file_count as u64),
-            block_table_size: 0, // Not used
+            index_size,
+            block_table_size: file_indices_size as u32,
         };
-
-        // Copy values from packed struct to avoid alignment issues
-        let index_size = header.index_size;
 
         // Create hash table (name hash 1 of each file)
         let mut het_hash_table = vec![HetTable::ENTRY_FREE; hash_table_entries as usize];
 
         // Create file indices array
-        let file_indices_size = (header.total_index_size as usize).div_ceil(8);
         let mut file_indices = vec![0u8; file_indices_size]; // Initialize with 0
 
         // Pre-fill with invalid indices (all bits set)
@@ -1866,7 +1868,8 @@ impl ArchiveBuilder {
         // Calculate sizes
         let het_header_size = std::mem::size_of::<HetHeader>();
         let data_size = het_header_size as u32 + hash_table_entries + file_indices_size as u32;
-        let table_size = 12 + data_size; // Extended header (12 bytes) + data
+        // The table size does not include the extended header: it is the data size again
+        let table_size = data_size;
 
         // Update header with final size
         let mut final_header = header;
@@ -2201,7 +2204,8 @@ impl ArchiveBuilder {
         let flag_array_size = flag_count * 4;
         let data_size =
             bet_header_size as u32 + flag_array_size + file_table_size + bet_hash_array_size;
-        let table_size = 12 + data_size; // Extended header (12 bytes) + data
+        // The table size does not include the extended header: it is the data size again
+        let table_size = data_size;
 
         // Update header with final size
         let mut final_header = header;
